@@ -1,6 +1,6 @@
 """C08 — a node caught up by snapshot install serves the same data as the leader."""
 from ..runner import Prop, ModelRun
-from . import cluster_gen
+from . import cluster_gen, apply_gen
 
 
 class C08(Prop):
@@ -8,7 +8,18 @@ class C08(Prop):
     lean_module = "RNacos.Props.C08"
     level = "proof"
     design_ref = "DESIGN.md §7 C08"
-    models = [ModelRun("cluster", cluster_gen.gen_install, lambda c: "start 3" in c.ops and any(o.startswith("getall") for o in c.ops),
+    models = [ModelRun("apply", apply_gen.gen_install, lambda c: any(o.startswith("install") for o in c.ops) and "dumpn" in c.ops,
+                       spec_needs_impl=True, jobs=8, shrinkable=True,
+                       regions={"install.before_restart": apply_gen.region_install_before_restart},
+                       search=lambda rng, b: apply_gen.gen_install(rng, "thorough")[:b], rule=(
+        "complete nodes as child processes (see C07); node N receives nothing until the leader's current snapshot file is "
+        "installed on it through its RaftStorage exactly as async-raft does (create_snapshot, the bytes, "
+        "finalize_snapshot_installation with delete_through = Some(index) iff its log is longer), as a first-time joiner "
+        "and again after it fell behind (log and state below the snapshot); then the entries after the snapshot arrive as "
+        "replicated batches with the leader's indexes, and N is restarted gracefully or killed. Oracle: once N has been "
+        "sent everything, its dump (served configurations, every component's records) equals the leader's; the "
+        "installation and the following appends are accepted. non-trivial = an installation and a comparison")),
+              ModelRun("cluster", cluster_gen.gen_install, lambda c: "start 3" in c.ops and any(o.startswith("getall") for o in c.ops),
                        spec_needs_impl=True, jobs=2, shrinkable=False,
                        regions={"install.before_restart": cluster_gen.region_before_restart},
                        search=lambda rng, b: cluster_gen.gen_install(rng, "thorough")[:b], rule=(
